@@ -563,6 +563,7 @@ class FuncInfo:
         if self._mutated_in_place(name_node.id):
             return None
         use = self.stmt(name_node)
+        in_iter = isinstance(use, (ast.For, ast.AsyncFor)) and any(n is name_node for n in ast.walk(use.iter))
         for m in walk_expr(v):
             if not (isinstance(m, ast.Name) and isinstance(m.ctx, ast.Load)):
                 continue
@@ -571,9 +572,22 @@ class FuncInfo:
             for ms in (self._mutated_in_place(m.id) if strict else []):
                 if ms is use or ms is site:
                     continue
-                if self.cfg.reachable(site, ms, avoiding=[use]) and self.cfg.reachable(ms, use, avoiding=[site]):
+                # a mutation that can execute after the definition and before
+                # (some execution of) the use: also one placed after the use in a
+                # loop body when the definition sits before the loop
+                if in_iter and self._within(ms, use):
+                    continue        # the iterable of a for loop is evaluated once, before its body runs
+                if self.cfg.reachable(site, ms) and self.cfg.reachable(ms, use, avoiding=[site]):
                     return None
         return v
+
+    def _within(self, node, outer):
+        p = self.mod.parent.get(node)
+        while p is not None:
+            if p is outer:
+                return True
+            p = self.mod.parent.get(p)
+        return False
 
     def expand(self, expr, depth=8, stop=(), strict=True):
         """A copy of `expr` in which every temporary (see temp_value) is
